@@ -713,6 +713,18 @@ class StreamSeedUpdater(StreamUpdater):
         return self._stream_seeds
 
 
+def _string_hash(s: str) -> int:
+    """
+    Return a hash code of a string that is the same in every process and on 
+    every platform (the algorithm of the Java String.hashCode method). The 
+    built-in hash() of a str is randomized for each interpreter process.
+    """
+    h: int = 0
+    for ch in s:
+        h = (31 * h + ord(ch)) & 0xFFFFFFFF
+    return h - 0x100000000 if h >= 0x80000000 else h
+
+
 class SimpleStreamUpdater(StreamUpdater):
     """
     SimpleStreamUpdater updates the seed value for a replication based on 
@@ -757,5 +769,5 @@ class SimpleStreamUpdater(StreamUpdater):
         if replication_nr < 0:
             raise ValueError("replication_nr < 0")
         stream.set_seed(stream.original_seed() + replication_nr * 
-                        (1_000_037 + hash(stream_id)))
+                        (1_000_037 + _string_hash(stream_id)))
 
